@@ -15,20 +15,20 @@ Inductive action :=
 | ServeConn (i : nat)      (* registerSession + go s.serve(conn, ...) for the i-th accepted connection *)
 | CloseLate (i : nat).     (* connection accepted too late: closed, not served *)
 
-Inductive serve_result := RNil | RErr | RRunning.   (* RRunning: the sequence ended, Serve still accepting *)
+Inductive serve_result := ARNil | ARErr | ARRunning.   (* ARRunning: the sequence ended, Serve still accepting *)
 
 Definition next_delay (d : N) : N := N.min 1000 (if d =? 0 then 5 else d * 2).
 
 Fixpoint accept_loop (rs : list accept_result) (delay : N) (nconn : nat) : list action * serve_result :=
   match rs with
-  | [] => ([], RRunning)
+  | [] => ([], ARRunning)
   | ATemp done :: r =>
-      if done then ([], RNil)
+      if done then ([], ARNil)
       else let d := next_delay delay in
            let '(acts, res) := accept_loop r d nconn in (Sleep d :: acts, res)
-  | APerm done :: r => if done then ([], RNil) else ([], RErr)
+  | APerm done :: r => if done then ([], ARNil) else ([], ARErr)
   | AConn done :: r =>
-      if done then ([CloseLate nconn], RNil)
+      if done then ([CloseLate nconn], ARNil)
       else let '(acts, res) := accept_loop r 0 (S nconn) in (ServeConn nconn :: acts, res)
   end.
 
